@@ -106,6 +106,26 @@ def make_pool(rng, n):
             except Exception:
                 continue
             pool.append({"t": "prog", "prog": prog, "method": rng.choice(["tasks", "disk"]), "flags": flags})
+            outv = b.out_pd.pd
+            if isinstance(outv, pd.DataFrame) and outv.shape[1] >= 2 and rng.random() < 0.6:
+                # a narrowing selection of the same query: optimizing it pushes a projection through the shared sub-plan,
+                # which must leave the parent query (same expression objects, deduplicated by name) untouched
+                cols = [c for c in rng.sample(list(outv.columns), rng.randrange(1, outv.shape[1]))]
+                pool[-1]["_sib"] = len(pool) - 1
+                pool.append({"t": "prog_proj", "prog": prog, "method": pool[-1]["method"], "flags": flags, "cols": cols, "_sib": len(pool) - 1})
+    # an aggregation, a narrowing selection of it and a rebuilt copy
+    first = len(pool)
+    gk = rng.choice(["k", "i"])
+    for variant in ("agg", "agg_proj", "agg_mp", "agg_mp_proj", "agg_series"):
+        pool.append({"t": "gb", "table": dict(tspec, cols=["k", "i", "g", "u", "rid"]), "np": 3, "by": gk, "variant": variant, "_sib": first})
+    # several views of ONE parquet dataset with unevenly sized files (process-wide statistics caches are keyed by file):
+    # a column-projected view (its optimization samples statistics), the full frame, len / loc / series users of the statistics
+    ds = rng.randrange(10**6)
+    fs = rng.choice(["arrow", "arrow", "fsspec"])
+    nfiles = rng.choice([4, 5, 7])
+    first = len(pool)
+    for variant in ("proj", "full", "loc", "series", "filter", "proj2"):
+        pool.append({"t": "pq", "ds": ds, "fs": fs, "nfiles": nfiles, "variant": variant, "cd": variant in ("loc", "full") or rng.random() < 0.5, "_sib": first})
     # de-duplicate identical specs
     seen, out = set(), []
     for q in pool:
